@@ -134,6 +134,18 @@ func (r *reRun) try(pc, pos int) bool {
 			if pos >= len(r.s.S) {
 				return false
 			}
+			if lead := r.s.at(pos); lead.T != nil {
+				// fast path: a class with ASCII members only needs no UTF-8 decoding —
+				// every non-ASCII lead byte fails it whatever the rune is.
+				if c, ok := asciiClassCond(inst, lead.T); ok {
+					if !r.m.branch(mkBool(c)) {
+						return false
+					}
+					pc = int(inst.Out)
+					pos++
+					continue
+				}
+			}
 			rn, w := r.m.decodeRune(r.s, pos)
 			if !r.m.branch(mkBool(runeCond(inst, rn))) {
 				return false
@@ -161,4 +173,43 @@ func (m *Machine) reSearch(re *regexp.Regexp, s Str) []int {
 		}
 	}
 	return nil
+}
+
+// asciiClassCond: if every rune the instruction accepts is < 0x80, the condition
+// "byte b is accepted" as a constraint over the 8-bit term b.
+func asciiClassCond(inst *syntax.Inst, b *Term) (*Term, bool) {
+	if inst.Op != syntax.InstRune && inst.Op != syntax.InstRune1 {
+		return nil, false
+	}
+	rs := inst.Rune
+	var alts []*Term
+	rng := func(lo, hi rune) {
+		if lo == hi {
+			alts = append(alts, tEq(b, bvConst(uint64(lo), 8)))
+		} else {
+			alts = append(alts, tAnd(tBin("bvuge", 0, b, bvConst(uint64(lo), 8)), tBin("bvule", 0, b, bvConst(uint64(hi), 8))))
+		}
+	}
+	if len(rs) == 1 {
+		if rs[0] > 0x7f {
+			return nil, false
+		}
+		rng(rs[0], rs[0])
+		if syntax.Flags(inst.Arg)&syntax.FoldCase != 0 {
+			for f := unicode.SimpleFold(rs[0]); f != rs[0]; f = unicode.SimpleFold(f) {
+				if f > 0x7f {
+					return nil, false
+				}
+				rng(f, f)
+			}
+		}
+		return tOr(alts...), true
+	}
+	for i := 0; i+1 < len(rs); i += 2 {
+		if rs[i+1] > 0x7f {
+			return nil, false
+		}
+		rng(rs[i], rs[i+1])
+	}
+	return tOr(alts...), true
 }
